@@ -11,6 +11,8 @@ MACRO_SETS = [
     [("log", "info")],
     [("log", "info"), ("log", "infox"), ("log", "xinfo"), ("applog", "i"), ("log", "warn_user")],
     [("tracing", "event"), ("log", "e")],
+    [("log", "info"), ("tracing", "info"), ("log", "warn"), ("slog", "warn"), ("logger", "info")],
+    [("app::diag", "note"), ("app", "warn"), ("diag", "note")],
 ]
 
 
